@@ -6,19 +6,8 @@ import NeumannModel.Ckpt.Lemmas
 namespace Neumann.Ckpt.Props
 open Neumann.Ckpt
 
-/-- The full statement: for every statement sequence `pre` before the checkpoint (which may itself
-    contain checkpoints and rollbacks: repeated cycles, several checkpoints), every sequence `post`
-    after it, every probe set: if `ROLLBACK` to that checkpoint is accepted, the whole observable
-    image (table scans, index-path queries, graph, embeddings, searches, raw keys) is the one at
-    checkpoint time, and no checkpoint that was listed before the rollback is lost by it. -/
-def RollbackExact : Prop :=
-  ∀ (p : Probes) (pre post : List Op) (ts : Nat) (ord : List Nat) (d3 : Db),
-    let d0 := run {} pre
-    let d2 := run (step d0 (.ckpt ts ord)).1 post
-    step d2 (.rollback d0.nextCk) = (d3, .ok) →
-      obs p d3 = obs p d0 ∧ ∀ i, alHas d2.st.cps i = true → alHas d3.st.cps i = true
-
-def probes0 : Probes := ⟨[1, 2], [1], [[1, 1, 1]]⟩
+/- `RollbackExact` (the full statement, a named Prop) and the probe set `probes0` are defined at the
+   end of `Lemmas.lean`: this file holds theorems and examples only. -/
 
 /-- create table, insert, checkpoint, rollback ⇒ the table cannot be read any more -/
 theorem rollback_loses_tables_witness : ¬ RollbackExact := by
@@ -62,23 +51,27 @@ theorem writes_fail_after_rollback_witness :
     let d3 := run {} [.rcreate 0, .rins 0 1 2, .ckpt 100 [], .rollback 0]
     tables d3 = [0] ∧ (step d3 (.rins 0 5 5)).2 = .err .storage := by decide
 
-/-- What holds, for EVERY statement sequence before the checkpoint that does not write an
-    `_embedding` field (`Op.noSlab`; may contain checkpoints, rollbacks, retention) and EVERY sequence
-    after it (unrestricted): if the rollback is accepted, the key-addressed slabs are exactly the
-    checkpointed ones, so everything read through `scan`/`get` — graph nodes / edges / neighbours,
-    embeddings, plain / cache / emb keys, table names — is exactly as at the checkpoint.
-    Missing w.r.t. `RollbackExact`: the relational slab (`rel = []`: all rows gone), engine-side
-    indexes and caches (witnesses above), the checkpoint records themselves, and stores holding
-    `_embedding` values (embedding slab / entity index; covered by the `store_raw` correspondence only). -/
-theorem rollback_exact_partial (pre post : List Op) (ts : Nat) (ord : List Nat) (d3 : Db)
-    (hpre : ∀ op ∈ pre, op.noSlab = true) :
+/-- What holds, for EVERY statement sequence before the checkpoint (unrestricted: it may contain
+    checkpoints, rollbacks, retention, and raw `emb:` keys with `_embedding` fields, i.e. the
+    embedding slab / entity index path) and EVERY sequence after it: if the rollback is accepted,
+    the key-addressed slabs are exactly the checkpointed ones, so everything read through
+    `scan`/`get` — graph nodes / edges / neighbours, embeddings, plain / cache / emb keys (with their
+    `_embedding` vectors), table names — is exactly as at the checkpoint.
+    The proof carries the store invariant `WF` (Lemmas.lean) through every statement; its clause
+    `slabOk` is the embedding-slab invariant (a slab vector of an `emb:` key's entity is the vector
+    its metadata value carries).
+    Still missing w.r.t. `RollbackExact` (each is FALSE of the code, see the witnesses above): the
+    relational slab (`rel = []`: all rows gone, so table scans / index-path queries differ), the
+    engine-side label index and HNSW cache, and the checkpoint records themselves (`cps` is the
+    checkpointed list, so the checkpoint rolled back to and every later one are unlisted). -/
+theorem rollback_exact_partial (pre post : List Op) (ts : Nat) (ord : List Nat) (d3 : Db) :
     let d0 := run {} pre
     let d2 := run (step d0 (.ckpt ts ord)).1 post
     step d2 (.rollback d0.nextCk) = (d3, .ok) →
       d3.st.md = d0.st.md ∧ d3.st.cache = d0.st.cache ∧ d3.st.rel = [] ∧ kvObs d3 = kvObs d0 ∧
-        d3.st.cps = d0.st.cps ∧ WF0 d3.st := by
+        d3.st.cps = d0.st.cps ∧ WF d3.st := by
   intro d0 d2 hstep
-  have hinv : DbInv d0 := DbInv.init.run pre hpre
+  have hinv : DbInv d0 := DbInv.init.run pre
   simp only [step, doRollback] at hstep
   cases hl : loadCk d2 d0.nextCk with
   | none =>
@@ -90,49 +83,54 @@ theorem rollback_exact_partial (pre post : List Op) (ts : Nat) (ord : List Nat) 
     have hd3 : d3 = { d2 with st := Store.restoreFrom c.img d2.st } :=
       (congrArg Prod.fst hstep).symm
     have hf := restoreFrom_fields (img := c.img) (by rw [himg]; exact hinv.wf) d2.st
-    have hw := restoreFrom_wf (img := c.img) (by rw [himg]; exact hinv.wf) d2.st
+    have hw := restoreFrom_wf c.img d2.st
     have hst : d3.st = Store.restoreFrom c.img d2.st := by rw [hd3]
     rw [himg] at hf hw hst
-    have hv := WF0.view_eq (hst ▸ hw) hinv.wf (by rw [hst]; exact hf.1) (by rw [hst]; exact hf.2.1)
+    have hv := WF.view_eq (hst ▸ hw) hinv.wf (by rw [hst]; exact hf.1) (by rw [hst]; exact hf.2.1)
     refine ⟨by rw [hst]; exact hf.1, by rw [hst]; exact hf.2.1, by rw [hst]; exact hf.2.2.1, ?_⟩
     exact ⟨kvObs_congr d3 d0 (by rw [hst]; exact hf.1) hv.1 hv.2.1 hv.2.2,
       by rw [hst]; exact hf.2.2.2, hst ▸ hw⟩
 
-/-- non-vacuity: a mixed sequence (tables, graph, vectors, raw keys, an earlier checkpoint/rollback
-    cycle) satisfies the hypothesis, the rollback is accepted, and the image is non-trivial -/
+/-- non-vacuity: for a mixed sequence (tables, graph, vectors, raw keys with and without
+    `_embedding`, an `_embedding` overwritten without one, an earlier checkpoint/rollback cycle)
+    the rollback is accepted and the image is non-trivial, slab vectors included -/
 example :
     let pre : List Op := [.rcreate 0, .rins 0 1 2, .gnode 1, .gnode 2, .gedge 1 2, .vput 0 [1, 2, 3],
-      .kput 0 1 5 none, .kput 1 1 6 none, .ckpt 50 [], .gdeln 2, .rollback 0, .gnode 0]
-    let post : List Op := [.gdeln 1, .vdel 0, .kput 2 7 1 (some 3), .ckpt 70 [], .rdrop 0]
+      .kput 0 1 5 none, .kput 1 1 6 none, .kput 2 5 7 (some 3), .kput 2 6 8 (some 4), .ckpt 50 [],
+      .gdeln 2, .kput 2 6 9 none, .kput 2 7 1 (some 2), .rollback 0, .gnode 0, .kput 2 8 2 (some (-1))]
+    let post : List Op := [.gdeln 1, .vdel 0, .kput 2 5 1 (some 9), .kdel 2 6, .ckpt 70 [], .rdrop 0]
     let d0 := run {} pre
-    (∀ op ∈ pre, op.noSlab = true) ∧
     (step (run (step d0 (.ckpt 60 [])).1 post) (.rollback d0.nextCk)).2 = .ok ∧
-    (kvObs d0).nodes = [(1, 1), (2, 2), (3, 0)] ∧ (kvObs d0).embs = [(0, [1, 2, 3])] := by decide
+    (kvObs d0).nodes = [(1, 1), (2, 2), (3, 0)] ∧ (kvObs d0).embs = [(0, [1, 2, 3])] ∧
+    (kvObs d0).raw = [(.emb 0, .vec [1, 2, 3]), (.plain 1, .raw (some 5) none), (.emb 5, .raw (some 7) (some 3)),
+      (.emb 6, .raw (some 8) (some 4)), (.emb 8, .raw (some 2) (some (-1))),
+      (.cache 1, .raw (some 6) none)] ∧
+    d0.st.eslab = [(1, 3), (2, 4), (3, -1)] := by decide
 
 /-- `usable_after_rollback`, the part that holds: when the checkpointed database held no table rows,
     the store after the rollback has the checkpointed metadata slab, cache, (empty) relational slab
     and checkpoint records, and satisfies the store invariant again — so `rollback_exact_partial`
     applies to every further checkpoint / rollback cycle started from it.  It differs from the
-    checkpointed store only in entity ids (`eidx`/`enext`), which no statement answers with.
+    checkpointed store only in entity ids (`eidx`/`enext` and the ids keying `eslab`), which no
+    statement answers with.
     Missing: a proof that every further statement ANSWERS the same (a simulation up to entity ids),
     the engine-side state (id counters keep their post-checkpoint values — harmless, ids stay
     unique; label index / HNSW cache stale — witnesses above), and databases with tables
     (`writes_fail_after_rollback_witness`). -/
-theorem usable_after_rollback_partial (pre post : List Op) (ts : Nat) (ord : List Nat) (d3 : Db)
-    (hpre : ∀ op ∈ pre, op.noSlab = true) :
+theorem usable_after_rollback_partial (pre post : List Op) (ts : Nat) (ord : List Nat) (d3 : Db) :
     let d0 := run {} pre
     let d2 := run (step d0 (.ckpt ts ord)).1 post
     step d2 (.rollback d0.nextCk) = (d3, .ok) → d0.st.rel = [] →
       d3.st.md = d0.st.md ∧ d3.st.cache = d0.st.cache ∧ d3.st.rel = d0.st.rel ∧
-      d3.st.cps = d0.st.cps ∧ WF0 d3.st := by
+      d3.st.cps = d0.st.cps ∧ WF d3.st := by
   intro d0 d2 hstep hrel
-  have h := rollback_exact_partial pre post ts ord d3 hpre hstep
+  have h := rollback_exact_partial pre post ts ord d3 hstep
   exact ⟨h.1, h.2.1, by rw [h.2.2.1, hrel], h.2.2.2.2.1, h.2.2.2.2.2⟩
 
 example :
-    let pre : List Op := [.gnode 1, .vput 0 [1, 2, 3], .kput 1 1 6 none]
+    let pre : List Op := [.gnode 1, .vput 0 [1, 2, 3], .kput 1 1 6 none, .kput 2 4 1 (some 2)]
     let d0 := run {} pre
-    (∀ op ∈ pre, op.noSlab = true) ∧ d0.st.rel = [] ∧
+    d0.st.rel = [] ∧
     (step (run (step d0 (.ckpt 60 [])).1 [.gdeln 1]) (.rollback d0.nextCk)).2 = .ok := by decide
 
 /-- retention, for EVERY listing `L` (any order among equal timestamps) and EVERY count: what
@@ -158,22 +156,34 @@ theorem retention_tie_drops_newest_witness :
 
 example : retainIds 2 [] [(0, 5), (1, 7), (2, 6), (3, 7)] = [1, 3] := by decide
 
-/-- every checkpoint id that is listed after ANY statement sequence (with retention at any count and
-    any tie order, rollbacks, …) can be loaded: its blob is in the archive -/
+/-- every checkpoint id that is listed after ANY statement sequence (unrestricted: retention at any
+    count and any tie order, rollbacks, `_embedding` writes, …) can be loaded — its blob is in the
+    archive — and `ROLLBACK` to it is accepted -/
 theorem retained_are_restorable (ops : List Op) (i : Nat) :
-    alHas (run {} ops).st.cps i = true → i < (run {} ops).nextCk →
-    (∀ op ∈ ops, op.noSlab = true) →
-    ∃ c, loadCk (run {} ops) i = some c ∧ c.id = i := by
-  intro hl hlt hops
-  have hinv : DbInv (run {} ops) := DbInv.init.run ops hops
-  unfold loadCk
-  rw [if_pos hl]
-  have hm : i ∈ (run {} ops).arch.map (·.id) := by rw [hinv.ids]; exact List.mem_range.mpr hlt
-  obtain ⟨c, hc, hci⟩ := List.mem_map.mp hm
-  cases hf : (run {} ops).arch.find? (fun x => decide (x.id = i)) with
-  | none =>
-    rw [List.find?_eq_none] at hf
-    exact absurd (by simpa using hci) (hf c hc)
-  | some c' => exact ⟨c', rfl, by simpa using List.find?_some hf⟩
+    alHas (run {} ops).st.cps i = true →
+    (∃ c, loadCk (run {} ops) i = some c ∧ c.id = i) ∧ (step (run {} ops) (.rollback i)).2 = .ok := by
+  intro hl
+  have hinv : DbInv (run {} ops) := DbInv.init.run ops
+  have hlt : i < (run {} ops).nextCk := hinv.cpsLt i hl
+  have hload : ∃ c, loadCk (run {} ops) i = some c ∧ c.id = i := by
+    unfold loadCk
+    rw [if_pos hl]
+    have hm : i ∈ (run {} ops).arch.map (·.id) := by rw [hinv.ids]; exact List.mem_range.mpr hlt
+    obtain ⟨c, hc, hci⟩ := List.mem_map.mp hm
+    cases hf : (run {} ops).arch.find? (fun x => decide (x.id = i)) with
+    | none =>
+      rw [List.find?_eq_none] at hf
+      exact absurd (by simpa using hci) (hf c hc)
+    | some c' => exact ⟨c', rfl, by simpa using List.find?_some hf⟩
+  refine ⟨hload, ?_⟩
+  obtain ⟨c, hc, _⟩ := hload
+  simp only [step, doRollback, hc]
+
+/-- non-vacuity: retention at max 2 over four checkpoints (with a tie), an `_embedding` write and a
+    rollback in between; the two listed ids satisfy the hypothesis -/
+example :
+    let ops : List Op := [.setmax 2, .kput 2 1 1 (some 4), .ckpt 5 [], .ckpt 7 [], .gnode 0, .ckpt 7 [1],
+      .rollback 2, .ckpt 9 []]
+    qCkpts (run {} ops) = [1, 3] ∧ alHas (run {} ops).st.cps 3 = true := by decide
 
 end Neumann.Ckpt.Props
